@@ -329,6 +329,8 @@ def props_conform(pg, length, pmd) -> bool:
         if pm["varlength"]:
             if data is None or data["k"] != "A" or data["dt"] != pm["dtype"] or vals["dt"] != "uint64":
                 return False
+            if len(vals["shape"]) != 2 or len(data["shape"]) != 1:  # one (offset, *shape) row per element into a 1-D data array
+                return False
         else:
             if data is not None or vals["dt"] != pm["dtype"]:
                 return False
